@@ -89,6 +89,7 @@ def _universe(name, cfg):
     Base = _m["declarative_base"]()
     b_t = Table("b_t", Base.metadata, Column("b_id", ForeignKey("b.id"), primary_key=True), Column("t_id", ForeignKey("t.id"), primary_key=True))
     nf = Table("nf", Base.metadata, Column("src", ForeignKey("node.id"), primary_key=True), Column("dst", ForeignKey("node.id"), primary_key=True))
+    nl = Table("nl", Base.metadata, Column("node_id", ForeignKey("node.id"), primary_key=True), Column("t_id", ForeignKey("t.id"), primary_key=True))
 
     class A(Base):
         __tablename__ = "a"
@@ -132,6 +133,7 @@ def _universe(name, cfg):
         name = Column(String)
         children = relationship("Node", backref=backref("parent", remote_side=[id]))
         follows = relationship("Node", secondary=nf, primaryjoin=id == nf.c.src, secondaryjoin=id == nf.c.dst, backref="followed_by")
+        labels = relationship("T", secondary=nl)          # many-to-many without a reverse side, on a class that can be in a cycle
 
     class K(Base):
         __tablename__ = "k"
@@ -222,6 +224,7 @@ def _universe(name, cfg):
         ("Node", "parent"): dict(kind="m2o", target="Node", rev="children", fk=("node", "parent_id")),
         ("Node", "follows"): dict(kind="m2m", target="Node", rev="followed_by", assoc=("nf", "src", "dst")),
         ("Node", "followed_by"): dict(kind="m2m", target="Node", rev="follows", assoc=("nf", "dst", "src")),
+        ("Node", "labels"): dict(kind="m2m", target="T", rev=None, assoc=("nl", "node_id", "t_id")),
         ("P", "a"): dict(kind="m2o", target="A", rev="p", fk=("p", "a_id")),
         ("D", "blob"): dict(kind="m2o", target="BL", rev=None, fk=("d", "bl_id")),
         ("H", "doc"): dict(kind="m2o", target="D", rev=None, fk=("h", "d_id")),
@@ -239,7 +242,7 @@ def _universe(name, cfg):
     scal = {"A": ["name"], "A2": ["name", "extra"], "B": ["val"], "T": ["name"], "Node": ["name"], "K": ["val", "memo"], "P": ["note"],
             "BL": ["note"], "D": ["note"], "H": ["note"], "Q": ["note"], "R": ["note"], "G": ["note"], "O": ["val"], "M": []}
     tables = {"a": ["id", "name", "kind", "data", "items", "k_name"], "a2": ["id", "extra"], "b": ["id", "a_id", "val"], "t": ["id", "name"],
-              "b_t": ["b_id", "t_id"], "node": ["id", "parent_id", "name"], "nf": ["src", "dst"], "k": ["name", "val", "memo"],
+              "b_t": ["b_id", "t_id"], "node": ["id", "parent_id", "name"], "nf": ["src", "dst"], "nl": ["node_id", "t_id"], "k": ["name", "val", "memo"],
               "p": ["id", "a_id", "note"], "bl": ["id", "note"], "d": ["id", "bl_id", "note"], "h": ["id", "d_id", "note"],
               "q": ["id", "note"], "r": ["id", "q_id", "note"], "g": ["id", "note"], "o": ["id", "g_id", "val", "key"],
               "m": ["id", "d", "l", "s", "x", "y"]}
